@@ -132,6 +132,14 @@ pub enum Error {
     /// no presentation contexts accepted by the server
     NoAcceptedPresentationContexts { backtrace: Backtrace },
 
+    /// too many presentation contexts to propose in one association
+    #[snafu(display(
+        "too many presentation contexts to propose ({}, the maximum is 128)",
+        count
+    ))]
+    #[non_exhaustive]
+    TooManyPresentationContexts { count: usize, backtrace: Backtrace },
+
     /// failed to send PDU message on wire
     #[non_exhaustive]
     WireSend {
